@@ -271,6 +271,39 @@ def work(shard, tier):
                                         add(viols, 'C14|%s|lookalike-differs' % name,
                                             'validate(%r) = %r but the look-alike spelling %r gives %r' % (short, bs, y, o),
                                             {'kind': 'mod', 'module': name, 'ascii': short, 'lookalike': y})
+                # (3) other ASCII spellings the module accepts (the characters regrouped with another separator, the
+                # number behind its printed label): their look-alike spellings must give the same result
+                bare = ''.join(ch for ch in v if ch.isalnum())
+                label = name.split('.')[-1].upper()
+                spellings = []
+                for g in (2, 3, 4):
+                    for sep in '.-: ':
+                        if len(bare) > g:
+                            spellings.append(sep.join(bare[i:i + g] for i in range(0, len(bare), g)))
+                for lab in (label + ' ', label + ': ', label + ':', label + '-L ', 'e-' + label + ' ', label.lower() + ' ', label + ' No. '):
+                    spellings.append(lab + v)
+                for sp in spellings:
+                    if sp == v:
+                        continue
+                    osp = C.short(C.outcome(mod.validate, sp))
+                    evals += 1
+                    if osp[0] != 'ok':
+                        continue
+                    for ch in sorted(set(sp)):
+                        if ch.isalnum() or ch not in inv:
+                            continue
+                        alts = inv[ch] if tier == 'thorough' else rng.sample(inv[ch], min(len(inv[ch]), 3))
+                        for a in alts:
+                            first = sp.index(ch)
+                            for y in {sp.replace(ch, a), sp[:first] + a + sp[first + 1:]}:
+                                o = C.short(C.outcome(mod.validate, y))
+                                evals += 1
+                                triples.add((name, 'spelling:' + ch, a))
+                                if o != osp:
+                                    add(viols, 'C14|%s|lookalike-differs' % name,
+                                        'validate(%r) = %r but the look-alike spelling %r (U+%04X for %r) gives %r' % (
+                                            sp, osp, y, ord(a), ch, o),
+                                        {'kind': 'mod', 'module': name, 'ascii': sp, 'lookalike': y})
                 # (2) insert ASCII separators and, where accepted with the same result, their look-alikes
                 for sep in " -./:,*'":
                     alts = inv.get(sep, [])
